@@ -10,7 +10,8 @@ from ..ref import c33_placement as ref
 
 ID = "C32"
 LEVEL = "exploration"
-TECHNIQUE = "runtime monitoring: scripted daemon request streams over a recording fake channel into the real helpers"
+TECHNIQUE = ("runtime monitoring: scripted daemon request streams over a recording fake channel into the real helpers; "
+             "real-daemon src_install scripts whose helper exit statuses are recorded by bash itself")
 RULE = ("request streams played from the daemon side (command, nonfatal flag, cwd, phase, option string, NUL-joined "
         "arguments) through run_generic_phase -> EbuildProcessor.generic_handler -> ebd_ipc.<Helper>.__call__ with one helper "
         "object per helper for the whole stream: (A) install helpers with valid operands, missing files, directories, "
@@ -25,7 +26,14 @@ RULE = ("request streams played from the daemon side (command, nonfatal flag, cw
         "evidence of failure (missing source, non-zero exit of the external command observed at spawn_get_output, "
         "injected fault not recovered, inputs constructed to fail) and failure only when the action was not completed; "
         "nonfatal failures returned with code and message, fatal ones end the phase.  Non-trivial: every judged request "
-        "with at least one operand (distinct by helper, options, arguments, nonfatal, outcome, evidence).")
+        "with at least one operand (distinct by helper, options, arguments, nonfatal, outcome, evidence).  (D) real bash side: "
+        "generated src_install bodies (EAPI 5-8; dodir/doins/doins -r/dosym/dobin/dodoc/doman/keepdir/has_version, valid and "
+        "invalid, also an operand with blanks, backslashes, `*` and `$`, fatal and nonfatal) run in a real ebuild daemon through the helper scripts, "
+        "__ebd_ipc_cmd, __ebd_read_array and __ipc_exit against run_generic_phase with the real helper objects; bash appends the "
+        "exit status it received after every call; judged: every step before a fatal failure answered once and in order, status "
+        "0 iff the request was constructed to succeed (and then its entries are in the image), nonfatal failures return "
+        "non-zero and the script goes on, a fatal failure ends the build and nothing after it runs, and the processor pkgcore "
+        "hands out next answers a metadata request with the right package's data.")
 ASSUMPTIONS = [
     "the processor object (read/write/lock/shutdown_processor) and the operation object are stubs; write() renders "
     "text the way EbuildProcessor.write does (str(x) + newline)",
@@ -39,11 +47,12 @@ ASSUMPTIONS = [
     "expected contents/mtimes of installed files are those of the source files at request time (the work tree is read "
     "again before every request once eapply/unpack/filter_env ... ran in the scenario)",
     "exit status of the external install command is taken from the real spawn_get_output call (observed, not modelled)",
-    "the bash side of the frame (read -a splitting on BEL, backslash processing) and real-daemon runs are left to the daemon "
-    "harness owner",
+    "real-daemon scripts (section D) run in a child process that is killed after 200 s; a killed child is counted "
+    "(daemon_script_timeouts) and says nothing",
 ]
+NEEDS_EBD = True
 SHARDS = {"quick": 4, "thorough": 16}
-TIMEOUT = {"quick": 240, "thorough": 1100}
+TIMEOUT = {"quick": 330, "thorough": 1500}
 MIN_EVALS = 800
 REQUIRED_COUNTERS = ("requests_judged", "fallback_requests", "fault_runs_fired", "misc_requests", "phase_fatal_failures",
                      "nonfatal_failures_returned", "fallback_blocked_target_requests", "failed_walk_then_valid_walk",
@@ -498,8 +507,62 @@ def scen_fault(ctx, base, max_k):
             break
 
 
+DAEMON_DIRECTED = [
+    # (eapi, [(kind, nonfatal)], fatal_at)
+    ("7", [("doins", False), ("doins-missing", True), ("dosym", False), ("doins-missing-odd-name", True), ("dobin", False)], None),
+    ("8", [("dodir", False), ("has_version-absent", False), ("doins-dir", False), ("dodir", False), ("dosym", False)], 2),
+    ("5", [("has_version-present", False), ("doman-nosection", True), ("doins-r", True), ("keepdir", False), ("dodoc", False)], None),
+    ("6", [("doins-two", False), ("dosym-one-arg", True), ("doman", False), ("dobin-missing", False), ("dosym", False),
+           ("dodir", False)], 3),
+]
+
+
+def daemon_scripts(ctx, n_random):
+    """Helper requests issued by the real bash side (helper scripts, __ebd_ipc_cmd, __ipc_exit) inside a real daemon."""
+    from ..gen import c32_daemon as dm
+
+    scratch = os.path.join(os.environ.get("VT_SCRATCH", "/var/tmp/c32-scratch"), "daemon")
+    scens = []
+    eapi, steps, fatal_at = DAEMON_DIRECTED[ctx.shard % len(DAEMON_DIRECTED)]
+    sl = []
+    for i, (kind, nonfatal) in enumerate(steps):
+        st = dm.step(kind, i, i % dm.NFILES, i % dm.NDIRS)
+        st.update(kind=kind, nonfatal=nonfatal, idx=i)
+        sl.append(st)
+    scens.append({"eapi": eapi, "steps": sl, "fatal_at": fatal_at})
+    for _ in range(n_random):
+        scens.append(dm.gen_scenario(ctx.rng, ctx.rng.choice([4, 6, 8])))
+    for sc in scens:
+        if ctx.out_of_time(120):
+            ctx.count("daemon_scripts_not_started_soft_deadline")
+            break
+        res = dm.run_child(sc, scratch, timeout=200)
+        if "marks" not in res:
+            # a killed or broken child says nothing about pkgcore
+            ctx.count("daemon_script_timeouts" if res.get("timeout") else "daemon_script_child_errors")
+            ctx.note("daemon script without result: %r" % (str(res)[:300],))
+            continue
+        ctx.count("daemon_scripts_judged")
+        ctx.count("daemon_requests_answered", len([m for m in res["marks"] if m[0] != "done"]))
+        ctx.count("daemon_trace_lines", len(res.get("trace") or []))
+        for a, b in res["marks"]:
+            if a != "done":
+                ctx.count("daemon_status_seen_by_bash:" + ("0" if b == "0" else "nonzero"))
+        if sc["fatal_at"] is not None:
+            ctx.count("daemon_fatal_failure_scripts")
+        bad = dm.judge(sc, res)
+        for s_ in sc["steps"]:
+            ctx.evaluated()
+            ctx.nontrivial(("daemon", sc["eapi"], s_["kind"], s_["nonfatal"], sc["fatal_at"] == s_["idx"]))
+        for rule, detail in bad:
+            ctx.violation("daemon-side", {"kind": "daemon-side", "rule": rule, "detail": detail, "scenario": sc,
+                                          "marks": res["marks"], "phase": res.get("phase"), "probe": res.get("probe"),
+                                          "trace_tail": (res.get("trace") or [])[-30:]})
+
+
 def run(ctx):
     base = os.path.join(os.environ.get("VT_SCRATCH", "/var/tmp/c32-scratch"), "sc")
+    daemon_scripts(ctx, ctx.budget(0, 5))
     allow_chown = hx.chown_works()
     # spawning is the expensive part (about a second per external command on a loaded machine)
     n_inst, n_fb, n_misc, n_fault = ctx.budget(12, 150), ctx.budget(3, 50), ctx.budget(5, 70), ctx.budget(4, 45)
@@ -531,6 +594,8 @@ def run(ctx):
 
 def classify(w):
     kind = w.get("kind")
+    if kind == "daemon-side":
+        return None
     h = w.get("helper")
     inst = [c for c in (w.get("spawn") or []) if c.get("argv") and c["argv"][0] == "install"]
     exc = w.get("exc") or {}
@@ -573,7 +638,23 @@ def classify(w):
     return None
 
 
+def replay_daemon(ctx, w):
+    from ..gen import c32_daemon as dm
+
+    sc = w["scenario"]
+    res = dm.run_child(sc, os.path.join(os.environ.get("VT_SCRATCH", "/var/tmp/c32-scratch"), "daemon-replay"), timeout=200)
+    if "marks" not in res:
+        ctx.set_inconclusive("daemon replay produced no result: %r" % (str(res)[:200],))
+        return
+    ctx.evaluated()
+    for rule, detail in dm.judge(sc, res):
+        ctx.violation("daemon-side", {"kind": "daemon-side", "rule": rule, "detail": detail, "scenario": sc,
+                                      "marks": res["marks"], "phase": res.get("phase"), "probe": res.get("probe")})
+
+
 def replay(ctx, w):
+    if w.get("kind") == "daemon-side":
+        return replay_daemon(ctx, w)
     base = os.path.join(os.environ.get("VT_SCRATCH", "/var/tmp/c32-scratch"), "replay")
     hist = [dict(r) for r in w["history"]]
     sc = hx.Scenario(base, w["eapi"], w["tree"], umask=int(w.get("umask", 0o022)),
